@@ -26,6 +26,7 @@ META = {
 PACKAGES = ["drv_light"]
 
 CHUNK = 120000
+GOLDEN = os.path.join(os.path.dirname(os.path.dirname(os.path.dirname(os.path.abspath(__file__)))), "specs", "codec", "golden.ndjson")
 
 
 def _key(e):
@@ -57,6 +58,9 @@ def _describe(e):
         return "%s decode as %s of %s bytes (%s, cut=%s of %s, head %s) -> %s" % (e["be"], e["ty"], e["pc"], e["len"], e["cut"], e["full"], e["head"], e["res"])
     if ev == "Msg":
         return "%s round trip of %s::%s member %s: enc=%s dec=%s eq_value=%s eq_bytes=%s" % (e["be"], e["ty"], e["var"], e["m"], e["enc"], e.get("dec"), e.get("eqv"), e.get("eqb"))
+    if ev == "Golden":
+        return ("golden vector %s (%s bytes, head %s): decode=%s re-encodes to the pinned bytes=%s; the fixed value encodes to the pinned bytes=%s "
+                "(now %s bytes, first difference at offset %s)" % (e["id"], e["len"], e["head"], e["dec"], e["reenc"], e["same"], e["nowlen"], e["diff"]))
     if ev == "ForgedChunk":
         return "chunk with forged address (%s, %s) -> %s addr_is_hash=%s addr_is_forged=%s" % (e["mode"], e["k"], e["res"], e["addr"], e["forged"])
     if ev == "Sweep":
@@ -92,7 +96,7 @@ def run(prop, tier, replay=None):
     w = workdir(prop)
     thorough = tier == "thorough"
     env_seed = None
-    sections = "cases,sweep,forged,random"
+    sections = "cases,golden,sweep,forged,random"
     if replay:
         thorough = replay.get("tier") == "thorough"
         env_seed = {"VERIF_SEED": str(replay.get("seed", seed()))}
@@ -107,7 +111,9 @@ def run(prop, tier, replay=None):
     # 2. build + drive the real code
     build(PACKAGES)
     trace = os.path.join(w, "trace.ndjson")
-    args = ["--cases", cases, "--out", trace, "--members", 12 if thorough else 2, "--random", 5000 if thorough else 40, "--sections", sections]
+    if not os.path.exists(GOLDEN):
+        raise ToolError("golden vectors %s missing (regenerate ON THE PINNED TREE with: drv_codec --golden-gen %s)" % (GOLDEN, GOLDEN))
+    args = ["--cases", cases, "--golden", GOLDEN, "--out", trace, "--members", 12 if thorough else 2, "--random", 5000 if thorough else 40, "--sections", sections]
     if thorough:
         args.append("--thorough")
     run_driver("drv_codec", args, w, env=env_seed, timeout=3000)
@@ -131,6 +137,9 @@ def run(prop, tier, replay=None):
     v.cov["events_validated"] = len(events)
     v.cov["trace_states"] = tstates
     v.cov["tlc_cases"] = ncases
+    v.cov["golden_vectors"] = sum(1 for e in events if e["ev"] == "Golden")
+    if "golden" in sections.split(",") and not any(e["ev"] == "GoldenEnd" for e in events):
+        raise ToolError("the golden section did not run")
     by = {}
     for e in events:
         k = "%s/%s" % (e["ev"], e.get("res", e.get("dec", e.get("enc", ""))))
@@ -161,6 +170,9 @@ def run(prop, tier, replay=None):
         "statement is silent; they are reported as observations",
         "a decode is 'total' when it returns Ok or Err without panic; huge declared lengths run in a child process under a 3 GiB address-space limit, "
         "an abort there is reported as outcome 'abort' (a violation)",
+        "wire stability is judged against specs/codec/golden.ndjson: bytes produced once by the pinned revision for fixed values of every record "
+        "kind and every Request/Response/Cmd/Query/NetworkAddress/Error variant in both serde back-ends; a build that decodes them differently, or "
+        "encodes the same values to other bytes, does not interoperate with the pinned one",
         "scratchpad ciphertexts use blsttc's internal randomness (content irrelevant to the codec); everything else is seeded by VERIF_SEED",
     ]
     return v.finish()
